@@ -14,6 +14,7 @@ def make_groups(rng, ngroups, features=None, values_per_class=2, offsets=(), max
         g = gen.Gen(rng, feats)
         table = g.make_table(rng.choice(list(nclasses)))
         G = pktcases.Group(table, tag_base + gid)
+        G.local = (gid % 7 == 6)      # every seventh table: classes declared inside a function (prototypes cloned from the live object, not by pickle)
         vg = gen.ValGen(rng, table)
         for c in table:
             for _ in range(values_per_class):
